@@ -43,6 +43,21 @@ def _cpu_seconds(pid):
         return None
 
 
+def _cpu_seconds_tree(pid):
+    """CPU seconds of a process including all its threads (and strace children when wrapped)."""
+    total = _cpu_seconds(pid)
+    if total is None:
+        return None
+    try:
+        for child in open("/proc/%d/task/%d/children" % (pid, pid)).read().split():
+            c = _cpu_seconds(int(child))
+            if c:
+                total += c
+    except Exception:
+        pass
+    return total
+
+
 class OpServer:
     CPU_LIMIT = 25.0      # CPU seconds one request may burn before it is "unbounded computation"
     WALL_LIMIT = 600.0    # wall-clock watchdog -> harness error (inconclusive), never a violation
@@ -271,24 +286,38 @@ class Cli:
             p = subprocess.Popen([w.encode() for w in wrapper] + [self.path.encode()] + bargv, stdin=subprocess.PIPE,
                                  stdout=subprocess.PIPE, stderr=subprocess.PIPE, env=benv, cwd=d)
             obs = {}
-            try:
-                so, se = p.communicate(stdin, timeout=timeout)
-                rc = p.returncode
-                if rc < 0:
-                    obs["signal"] = -rc
-                else:
-                    obs["exit"] = rc
-            except subprocess.TimeoutExpired:
-                # Decide between "blocked forever" (no CPU progress) and "still computing"
-                c1 = _cpu_seconds(p.pid)
-                time.sleep(3.0)
-                c2 = _cpu_seconds(p.pid)
-                p.kill()
-                so, se = p.communicate()
-                if c1 is not None and c2 is not None and c2 - c1 < 0.05:
-                    obs["hang"] = "alive, blocked, no CPU progress after %ds" % timeout
-                else:
-                    obs["timeout"] = "still computing after %ds wall-clock" % timeout
+            # Termination is not decided on wall-clock: a process that is alive but has made no CPU progress for
+            # STALL seconds is blocked ("hang"); one that is still computing when the generous watchdog fires is
+            # "timeout" (inconclusive, never a violation).
+            STALL = 20.0
+            deadline = t0 + timeout
+            last_cpu, last_change = None, time.time()
+            first = True
+            while True:
+                try:
+                    so, se = p.communicate(stdin if first else None, timeout=2.0)
+                    rc = p.returncode
+                    if rc < 0:
+                        obs["signal"] = -rc
+                    else:
+                        obs["exit"] = rc
+                    break
+                except subprocess.TimeoutExpired:
+                    first = False
+                    now = time.time()
+                    cpu = _cpu_seconds_tree(p.pid)
+                    if last_cpu is None or cpu is None or cpu - last_cpu > 0.02:
+                        last_cpu, last_change = cpu, now
+                    if now - last_change >= STALL:
+                        p.kill()
+                        so, se = p.communicate()
+                        obs["hang"] = "alive, blocked, no CPU progress for %ds" % STALL
+                        break
+                    if now >= deadline:
+                        p.kill()
+                        so, se = p.communicate()
+                        obs["timeout"] = "still computing after %ds wall-clock" % timeout
+                        break
             obs["stdout_hex"] = so.hex() if len(so) <= (1 << 16) else None
             obs["stdout_len"] = len(so)
             obs["stdout_sha"] = hashlib.sha256(so).hexdigest()
